@@ -31,6 +31,7 @@ WALL_BUDGET = {"quick": 200, "thorough": 2400}
 KF = "epr-keep-corrections:applied-to-virtual-qubit-0"
 KF_RSP_NV = "epr-recv-rsp:nv-multi-pair-target-preallocated"
 
+KF_RECV_BASIS = "recv-measure:post-processing-assumes-Z-basis"
 VARIANTS = ["recv_keep", "recv_keep_post", "recv_keep_seq", "recv_keep_with_info", "recv_rsp", "recv_rsp_with_info",
             "create_keep", "create_keep_seq", "recv_keep_retry", "recv_keep_seq_retry", "create_keep_retry"]
 OTHER_STATES = [np.array([math.cos(0.4), math.sin(0.4) * np.exp(0.7j)]), np.array([math.cos(1.1), math.sin(1.1) * np.exp(-1.3j)])]
@@ -82,6 +83,10 @@ def cases(ctx):
                 k += 1
                 if ctx.mine(k):
                     yield {"kind": "measure", "basis": basis, "bell": b, "role": role}
+                if role == "recv":
+                    k += 1
+                    if ctx.mine(k):
+                        yield {"kind": "measure", "basis": basis, "bell": b, "role": role, "told_bases": False}
 
 
 def run_case(ctx, case):
@@ -342,9 +347,10 @@ def _measure(ctx, case):
             with pipe.conn as conn:
                 if role == "recv":
                     res = es.recv_measure(1)
-                    # the receiving application is told the bases by the creator; they are part of the result object
-                    res[0].measurement_basis_local = rot
-                    res[0].measurement_basis_remote = rot
+                    if case.get("told_bases", True):
+                        # the receiving application is told the bases by the creator and enters them in the result object
+                        res[0].measurement_basis_local = rot
+                        res[0].measurement_basis_remote = rot
                 else:
                     res = es.create_measure(1, basis_local=EprMeasBasis[basis], basis_remote=EprMeasBasis[basis])
                 conn.flush()
@@ -362,8 +368,11 @@ def _measure(ctx, case):
     if role == "recv":
         want = joint_distribution(0, rot, rot)
         if any(abs(got.get(k, 0.0) - want[k]) > 1e-9 for k in want):
+            # known mechanism: recv_measure() has no basis argument and the SDK never reads the measurement basis reported in the
+            # response, so the result object post-processes with the Z-basis rule unless the application overwrites its bases
+            key = KF_RECV_BASIS if (not case.get("told_bases", True) and basis not in ("Z", "MZ")) else None
             ctx.fail(case, f"recv_measure basis {basis}, delivered Bell state {b}: post-processed outcomes have joint statistics "
-                           f"{ {k: round(v, 3) for k, v in sorted(got.items())} } instead of Phi+'s { {k: round(v, 3) for k, v in sorted(want.items())} }")
+                           f"{ {k: round(v, 3) for k, v in sorted(got.items())} } instead of Phi+'s { {k: round(v, 3) for k, v in sorted(want.items())} }", key=key)
     else:
         if processed != {0: 0, 1: 1}:
             ctx.fail(case, f"create_measure basis {basis}, Bell state {b}: the creator's outcome was altered ({processed}); nothing may be corrected on the creating side")
